@@ -2,7 +2,22 @@
 use crate::au::*;
 use crate::util::Ctx;
 
+/// a credential registered through U2F counts its CTAP2 assertions from zero like any other
+fn u2f_registered(ctx: &mut Ctx) {
+    for kind in [Kind::RefFull, Kind::Map, Kind::Slot] {
+        let app: Vec<u8> = (0..32).map(|_| 0x41 + ctx.rng.below(26) as u8).collect();
+        let handle = ctx.rng.bytes(16);
+        let rp = passkey_types::encoding::base64url(&app);
+        let w = World { kind, counter_on: true, id_len: 16, hm: Hm::None, preload: vec![] };
+        let mut steps = vec![step(Op::U2fReg { app: app.clone(), chal: ctx.rng.bytes(32), handle: handle.clone() })];
+        for _ in 0..3 { let mut g = simple_get(ctx, &rp); g.allow = Some(vec![handle.clone()]); steps.push(step(Op::Get(g))); }
+        run_case(ctx, "C08", &w, &steps);
+        ctx.stat("c08.u2f_registered_credential");
+    }
+}
+
 pub fn gen(ctx: &mut Ctx) {
+    u2f_registered(ctx);
     // ---- corpus first: the boundary that overflowed before the repair (fixed: C08)
     for kind in [Kind::RefFull, Kind::Map, Kind::Slot] {
         for start in [u32::MAX - 2, u32::MAX - 1, u32::MAX] {
